@@ -112,7 +112,19 @@ class _STIXBase(collections.abc.Mapping):
             raise DependentPropertiesError(self.__class__, failed_dependency_pairs)
 
     def _check_object_constraints(self):
-        for m in self.get('granular_markings', []):
+        granular_markings = self.get('granular_markings', [])
+        if 'granular_markings' not in self._properties and (
+            not isinstance(granular_markings, list) or not all(
+                isinstance(m, collections.abc.Mapping)
+                for m in granular_markings
+            )
+        ):
+            # A custom (hence uncleaned) property of that name.
+            raise InvalidValueError(
+                self.__class__, 'granular_markings',
+                "must be a list of granular markings",
+            )
+        for m in granular_markings:
             validate(self, m.get('selectors'))
 
     def __init__(self, allow_custom=False, interoperability=False, **kwargs):
